@@ -170,6 +170,8 @@ impl CryptoCore {
             extra.write_u8(self.current_key as u8).unwrap();
             extra.write_all(&key.send_nonce.as_bytes()[5..]).unwrap();
         }
+        #[cfg(dswd_vpncloud_verif)]
+        verif::log_seal(key);
         let nonce = aead::Nonce::assume_unique_for_key(*key.send_nonce.as_bytes());
         let tag = key.key.seal_in_place_separate_tag(nonce, aead::Aad::empty(), data).expect("Failed to encrypt");
         tag_space.clone_from_slice(tag.as_ref());
@@ -254,6 +256,93 @@ pub fn test_speed(algo: &'static aead::Algorithm, max_time: &Duration) -> f64 {
     let duration = (Instant::now() - start).as_secs_f64();
     let data = iterations * 1000 * 2;
     data as f64 / duration / 1_000_000.0
+}
+
+#[cfg(dswd_vpncloud_verif)]
+pub mod verif {
+    //! Verification hooks (read-only views, seal log, nonce probes). Compiled only with --cfg dswd_vpncloud_verif.
+    use super::*;
+    use std::cell::RefCell;
+
+    #[derive(Clone, Debug, PartialEq, Eq, Hash)]
+    pub struct KeyView {
+        pub fingerprint: [u8; 16],
+        pub send_nonce: [u8; NONCE_LEN],
+        pub min_nonce: [u8; NONCE_LEN],
+        pub next_min_nonce: [u8; NONCE_LEN],
+        pub seen_nonce: [u8; NONCE_LEN],
+    }
+
+    #[derive(Clone, Debug, PartialEq, Eq, Hash)]
+    pub struct CoreView {
+        pub keys: Vec<KeyView>,
+        pub current_key: usize,
+        pub nonce_half: bool,
+    }
+
+    thread_local! {
+        static SEAL_LOG: RefCell<Option<Vec<([u8; 16], [u8; NONCE_LEN])>>> = RefCell::new(None);
+    }
+
+    /// Fingerprint of a key: the AEAD tag of the empty message under a nonce that the protocol never uses
+    /// (top byte 0xff; real nonces have top byte 0x00 or 0x80).
+    pub fn fingerprint(key: &LessSafeKey) -> [u8; 16] {
+        let nonce = aead::Nonce::assume_unique_for_key([0xff; NONCE_LEN]);
+        let tag = key.seal_in_place_separate_tag(nonce, aead::Aad::empty(), &mut []).expect("fingerprint");
+        let mut fp = [0; 16];
+        fp.copy_from_slice(tag.as_ref());
+        fp
+    }
+
+    pub(super) fn log_seal(key: &CryptoKey) {
+        SEAL_LOG.with(|l| {
+            if let Some(log) = l.borrow_mut().as_mut() {
+                log.push((fingerprint(&key.key), key.send_nonce.0));
+            }
+        })
+    }
+
+    /// Start (or restart) recording every seal of this thread as (key fingerprint, full 12-byte nonce).
+    pub fn seal_log_start() {
+        SEAL_LOG.with(|l| *l.borrow_mut() = Some(Vec::new()))
+    }
+
+    /// Stop recording and return what was recorded.
+    pub fn seal_log_take() -> Vec<([u8; 16], [u8; NONCE_LEN])> {
+        SEAL_LOG.with(|l| l.borrow_mut().take().unwrap_or_default())
+    }
+
+    /// The repository's counter increment applied to an arbitrary 12-byte value.
+    pub fn nonce_increment(value: [u8; NONCE_LEN]) -> [u8; NONCE_LEN] {
+        let mut n = Nonce(value);
+        n.increment();
+        n.0
+    }
+
+    impl CryptoCore {
+        pub fn verif_state(&self) -> CoreView {
+            CoreView {
+                keys: self
+                    .keys
+                    .iter()
+                    .map(|k| KeyView {
+                        fingerprint: fingerprint(&k.key),
+                        send_nonce: k.send_nonce.0,
+                        min_nonce: k.min_nonce.0,
+                        next_min_nonce: k.next_min_nonce.0,
+                        seen_nonce: k.seen_nonce.0,
+                    })
+                    .collect(),
+                current_key: self.current_key,
+                nonce_half: self.nonce_half,
+            }
+        }
+
+        /// Places the send counter of one slot (used only to reach carry boundaries and the 56-bit limit).
+        pub fn verif_set_send_nonce(&mut self, slot: usize, value: [u8; NONCE_LEN]) {
+            self.keys[slot].send_nonce = Nonce(value);
+        }
+    }
 }
 
 #[cfg(test)]
